@@ -506,7 +506,7 @@ pub fn run(ctx: &Ctx) -> Report {
             let seq = seq_decode(d[0], kn, maxlen_n);
             let mut prog = f2_prog(&seq, &nitems, false);
             prog.items.insert(0, Item::Bank("n".into()));
-            prog.items.insert(0, Item::Bankdef(BankSrc { name: "n".into(), bits: Some(8), addr: Some(addrs[d[1] as usize]), size: None, outp: Some(0), fill: false, labelalign: None }));
+            prog.items.insert(0, Item::Bankdef(BankSrc { name: "n".into(), bits: Some(8), addr: Some(addrs[d[1] as usize] as i128), size: None, outp: Some(0), fill: false, labelalign: None }));
             judge_prog(&prog, "F2-layout-negative-bank", &opts, l);
         }));
         levels.push(json!({"family": format!("F2-layout in a bank at a negative address: sequences of length <= {} over {} items x {} addresses", maxlen_n, kn, addrs.len()), "cases": per * addrs.len() as u64}));
